@@ -921,7 +921,9 @@ class SelectHub (object):
         if task not in rets: rets[task] = ([],[],[])
         rets[task][1].append(i)
       for i in xo:
-        task = xl[i]
+        # (EpollSelect reports errors/hangups for every fd, asked for or not)
+        task = xl.get(i, rl.get(i, wl.get(i)))
+        if task is None: continue
         if task not in rets: rets[task] = ([],[],[])
         rets[task][2].append(i)
 
